@@ -184,5 +184,66 @@ def run(ctx):
                     ctx.disagree(st_term, dict(tokens=sig['tokens'], term=ti), a.tolist(), mrow.tolist(), 'term columns differ')
 
 
+    run_large(ctx)
+
+
+def harvest_int_literals(mods, lo=10 ** 5, hi=5 * 10 ** 7):
+    """integer constants (also constant-folded expressions such as 2**23) appearing in the source of `mods`"""
+    import ast
+    import inspect
+    vals = set()
+    for mod in mods:
+        try:
+            tree = ast.parse(inspect.getsource(mod))
+        except Exception:
+            continue
+        for node in ast.walk(tree):
+            if isinstance(node, (ast.Constant, ast.BinOp)):
+                try:
+                    v = eval(compile(ast.Expression(node), '<lit>', 'eval'), {'__builtins__': {}})
+                except Exception:
+                    continue
+                if isinstance(v, (int, float)) and not isinstance(v, bool) and lo <= v <= hi and float(v) == int(v):
+                    vals.add(int(v))
+    return sorted(vals)
+
+
+def run_large(ctx):
+    """large model matrices: every row of a big build_columns must equal the same row built alone (catches block-wise
+    processing that drops or misplaces a partial block).  Sizes are seeded by the integer literals of the source."""
+    import pygam.utils as U
+    import pygam.terms as T
+    from pygam.terms import SplineTerm, TensorTerm, FactorTerm, TermList, Intercept
+    st = 'columns.large'
+    ctx.stream(st, 'large inputs: rows of TermList.build_columns(X) on a big X equal the rows built one by one and the NumPy oracle (first, last and random rows)')
+    lits = harvest_int_literals([U, T])
+    sizes = sorted(set([9_600_000] + [int(L * 1.13) + 4321 for L in lits]))[:3 if ctx.tier == 'quick' else 8]
+    ctx.count('large sizes (elements of the tensor block)', str(sizes))
+    rng = np.random.default_rng(ctx.seed + 99)
+    for total in sizes:
+        ma, mb = 16, 12
+        n = total // (ma * mb) + 137
+        X = np.c_[rng.uniform(0, 1, n), rng.uniform(-2, 3, n), rng.integers(0, 3, n).astype(float), rng.normal(size=n)]
+        X[:3, 2] = [0, 1, 2]
+        tl = TermList(TensorTerm(SplineTerm(0, n_splines=ma), SplineTerm(1, n_splines=mb), by=3), FactorTerm(2), Intercept())
+        tl.compile(X[:500])
+        sig = dict(elements=int(n * ma * mb), n=n)
+        ctx.case(st, sig, nontrivial=True, sample=sig)
+        try:
+            big = tl.build_columns(X)
+        except Exception as e:  # noqa
+            ctx.fail(st, dict(kind='exception', exc=type(e).__name__), sig, observed='%s: %s' % (type(e).__name__, str(e)[:200]), expected='a model matrix', oracle='build_columns on a large X')
+            continue
+        rows = sorted(set(list(range(5)) + list(range(n - 300, n)) + [int(v) for v in rng.integers(0, n, 200)]))
+        sub = np.asarray(big[rows].todense())
+        small = np.asarray(tl.build_columns(X[rows]).todense())
+        ref = np.hstack([oracle_term(t, X[rows]) for t in tl])
+        if sub.shape != small.shape or np.abs(sub - small).max() > 0 or np.abs(sub - ref).max() > 1e-12 * max(1.0, np.abs(ref).max()):
+            bad = np.nonzero(np.abs(sub - ref).max(axis=1) > 1e-12)[0]
+            ctx.fail(st, dict(kind='large-rows'), dict(sig, first_bad_row=int(rows[bad[0]]) if len(bad) else None),
+                     observed=dict(rows_differing=int(len(bad)), maxdiff=float(np.abs(sub - ref).max())),
+                     expected='each row of a large model matrix = the documented columns of that row', oracle='row-wise recomputation')
+
+
 def replay(ctx, rp):
     run(ctx)
